@@ -18,6 +18,15 @@ Theorem C08_doc_order_irrelevant : forall m d d', Forall2 same_object d d' -> Fo
 Proof. exact doc_order_irrelevant. Qed.
 Print Assumptions C08_doc_order_irrelevant.
 
+(* the members of a grouped value (font { ... }, horizontalHeader { ... }) are held in a hash map too: any order of the members of any
+   grouped value gives equal outputs and permuted diagnostics *)
+Theorem C08_members_order_irrelevant : forall m o ps ps', Forall2 pequiv_d ps ps' ->
+  let r := run m (with_props o ps) in let r' := run m (with_props o ps') in
+  r_form r = r_form r' /\ r_attached r = r_attached r' /\ r_bindings r = r_bindings r' /\ r_callbacks r = r_callbacks r' /\
+  r_header r = r_header r' /\ Permutation (r_diags r) (r_diags r').
+Proof. exact members_order_irrelevant. Qed.
+Print Assumptions C08_members_order_irrelevant.
+
 (* the key lemma: a list sorted by distinct keys is determined by its elements *)
 Theorem C08_sorted_output_unique : forall (A : Type) (key : A -> string) l l',
   Permutation l l' -> NoDup (map key l) -> sort_by key l = sort_by key l'.
